@@ -252,6 +252,14 @@ pub fn execute(u: &Universe, rgs: &[RgsSnapshot], steps: &[Step], st: &mut Stats
 			} else if canon.n0 != prev_canon.n0 || changed {
 				fail("rejected-message-changed-graph", si, format!("{} was rejected but the graph changed: {} -> {}", m.label, prev_snap.describe(u), snap.describe(u)));
 			}
+			if ok {
+				let ex = match &m.facts {
+					Facts::CA { excess_len, .. } | Facts::CU { excess_len, .. } | Facts::NA { excess_len, .. } => *excess_len,
+				};
+				if ex > 1024 {
+					st.wit("oversized_message_applied_without_retention");
+				}
+			}
 			if ok && !changed {
 				// an accepted message is by construction different from what is stored
 				fail("accepted-message-without-effect", si, format!("{} returned Ok but the graph is unchanged", m.label));
